@@ -79,27 +79,27 @@ macro_rules! matrix_16_toy {
 
 macro_rules! matrix_all {
     ($bs:expr, $w:expr, $C:ident => $body:expr) => {
-        if $bs == 16 && $w >= 101 { real16!($w, $C => $body) } else if $bs == 8 && $w >= 101 { real8!($w, $C => $body) } else { matrix_all_toy!($bs, $w, $C => $body) }
+        if $bs == 16 && ($w >= 101 && $w <= 109) { real16!($w, $C => $body) } else if $bs == 8 && ($w >= 101 && $w <= 109) { real8!($w, $C => $body) } else { matrix_all_toy!($bs, $w, $C => $body) }
     };
 }
 macro_rules! matrix_div4 {
     ($bs:expr, $w:expr, $C:ident => $body:expr) => {
-        if $bs == 16 && $w >= 101 { real16!($w, $C => $body) } else if $bs == 8 && $w >= 101 { real8!($w, $C => $body) } else { matrix_div4_toy!($bs, $w, $C => $body) }
+        if $bs == 16 && ($w >= 101 && $w <= 109) { real16!($w, $C => $body) } else if $bs == 8 && ($w >= 101 && $w <= 109) { real8!($w, $C => $body) } else { matrix_div4_toy!($bs, $w, $C => $body) }
     };
 }
 macro_rules! matrix_div8 {
     ($bs:expr, $w:expr, $C:ident => $body:expr) => {
-        if $bs == 16 && $w >= 101 { real16!($w, $C => $body) } else if $bs == 8 && $w >= 101 { real8!($w, $C => $body) } else { matrix_div8_toy!($bs, $w, $C => $body) }
+        if $bs == 16 && ($w >= 101 && $w <= 109) { real16!($w, $C => $body) } else if $bs == 8 && ($w >= 101 && $w <= 109) { real8!($w, $C => $body) } else { matrix_div8_toy!($bs, $w, $C => $body) }
     };
 }
 macro_rules! matrix_div16 {
     ($bs:expr, $w:expr, $C:ident => $body:expr) => {
-        if $bs == 16 && $w >= 101 { real16!($w, $C => $body) } else { matrix_div16_toy!($bs, $w, $C => $body) }
+        if $bs == 16 && ($w >= 101 && $w <= 109) { real16!($w, $C => $body) } else { matrix_div16_toy!($bs, $w, $C => $body) }
     };
 }
 macro_rules! matrix_16 {
     ($bs:expr, $w:expr, $C:ident => $body:expr) => {
-        if $bs == 16 && $w >= 101 { real16!($w, $C => $body) } else { matrix_16_toy!($bs, $w, $C => $body) }
+        if $bs == 16 && ($w >= 101 && $w <= 109) { real16!($w, $C => $body) } else { matrix_16_toy!($bs, $w, $C => $body) }
     };
 }
 fn make(family: &str, mode: &str, bs: usize, w: usize, key: &[u8], iv: &[u8]) -> Option<Box<dyn Obj>> {
